@@ -10,7 +10,7 @@ ASSUMPTIONS = [
     "the real processors run natively inside solana-program-test 3.0.12 (vendored patches under harness/vendor), overflow checks off",
 ]
 FOOTPRINT = {4,6}
-FAMILIES = [("bank-directed", (22, 0), (22, 0), ()), ("bank-rd", (16, 140), (48, 260), ())]
+FAMILIES = [("bank-directed", (23, 0), (23, 0), ()), ("bank-rd", (16, 140), (48, 260), ())]
 
 def run(ctx, v):
     return bankprop.run("C15", ctx, v, FAMILIES, FOOTPRINT, monitor="C15", clause_filter=None, kinds_of_interest=['RInitializeDistribution', 'RConfigureProgram'])
